@@ -11,6 +11,8 @@
     * a call standing anywhere in a condition is replaced by the replacement text, the text before and after it is
       kept character for character (C13_call_in_context; `Reach`: the rewriter arrives at the call at the start of
       a token, not after a dot, having kept what it read)                                  (Cpf.Lemmas.Subst)
+    * a query with one call and the query with the parenthesised, renamed body written in its place hand the same
+      condition text to the evaluator (C13_inline)
     * renaming formals to arguments is simultaneous and token-wise (C13_rename_tokenwise, C13_tokens_partition);
       one matched invocation expands as the call-in-context theorem says (C13_expand_one_in_context)
     * expansion and renaming change the text only at identifiers they are about: a condition without such an
@@ -189,6 +191,33 @@ theorem C13_expand_one_in_context (inv : Invocation) (expr p post : List Char) (
   unfold expandOne
   simp only [hm, hlen, bne_self_eq_false, Bool.or_self, Bool.false_eq_true, if_false, hname]
   exact C13_call_in_context c tl _ post p expr _ hc htl hreach hpost
+
+open Cpf.Lemmas.Subst in
+/-- **C13 (a call and its inlined body give the evaluator the same text)**: a query whose condition calls a
+    predicate once, and the query written with the parenthesised body (formals replaced by the arguments) in the
+    place of the call, hand the same condition text to the evaluator — hence the same condition structure
+    (`condOfText`) and, the FROM list being the same, the same answer. -/
+theorem C13_inline (pq pq' : ParsedQuery) (inv : Invocation) (p post : List Char) (c : Char) (tl : List Char)
+    (hinv : pq.invocations = [inv]) (hinv' : pq'.invocations = [])
+    (hne : (pq.expression == "") = false) (hne' : (pq'.expression == "") = false)
+    (hname : inv.name.toList = c :: tl) (hc : isLetter c = true) (htl : IdentChars tl)
+    (hm : (inv.matched.name == "") = false) (hlen : inv.matched.params.length = inv.args.length)
+    (hreach : Reach (callRw (c :: tl) ('(' :: (Go.Str.join [','] (inv.args.map (fun p => p.name.toList)) ++ [')']))
+                  ('(' :: renameIdentifiers inv.matched.body.toList
+                      ((inv.matched.params.map (fun p => p.name.toList)).zip (inv.args.map (fun p => p.name.toList))) ++ [')']))
+                false pq.expression.toList p false
+                (c :: tl ++ '(' :: (Go.Str.join [','] (inv.args.map (fun p => p.name.toList)) ++ [')']) ++ post))
+    (hpost : ∀ x ∈ idents post, ¬ (x.1 = c :: tl ∧ x.2.1 = false ∧
+        Go.Str.hasPrefix x.2.2 ('(' :: (Go.Str.join [','] (inv.args.map (fun p => p.name.toList)) ++ [')'])) = true))
+    (hinl : pq'.expression.toList = p ++ ('(' :: renameIdentifiers inv.matched.body.toList
+              ((inv.matched.params.map (fun p => p.name.toList)).zip (inv.args.map (fun p => p.name.toList))) ++ [')']) ++ post) :
+    replacePredicateVariables pq = replacePredicateVariables pq' ∧
+    condOfText (String.ofList (replacePredicateVariables pq)) = condOfText (String.ofList (replacePredicateVariables pq')) := by
+  have h : replacePredicateVariables pq = replacePredicateVariables pq' := by
+    unfold replacePredicateVariables
+    simp only [hne, hne', Bool.false_eq_true, if_false, hinv, hinv', List.foldl_cons, List.foldl_nil]
+    rw [C13_expand_one_in_context inv pq.expression.toList p post c tl hname hc htl hm hlen hreach hpost, hinl]
+  exact ⟨h, by rw [h]⟩
 
 open Cpf.Lemmas.Subst in
 /-- **C13 (renaming is simultaneous, token by token)**: the body with formals renamed is the body's tokens, each
